@@ -718,3 +718,10 @@ def shrink(case, fails):
             if fails(t): cur = t
             else: break
     return cur
+
+
+def translate(repo, gen_dir):
+    """regenerate Gen/C17_Kernel.v (the kernel expressions of the four sampling utilities and of sliceaxisix) from the current
+    source; fail closed"""
+    from translate import c17_kernel
+    return [c17_kernel.translate(repo, gen_dir)]
